@@ -378,3 +378,53 @@ _SLICED = "            counter.update(chunk[i : i + keylen].ljust(keylen, b\"\\x
 _GRAMS = "            grams = grouper(chunk, n=keylen, fillvalue=0)\n            counter.update(bytes(gram) for gram in grams)\n"
 T("C17", "twin-r5-ngrams-by-slicing", G, _GRAMS, _SLICED)
 M("C17", "r5-ngrams-by-slicing-short-range", G, "", "", "C17.R5", edits=[(G, _GRAMS, _SLICED), (G, "    for keylen in range(2, 257):\n", "    for keylen in range(2, 200):\n")])
+
+# ================================================================================================ R2: how the candidate is drawn (for / next), exhaustive search
+_FF_ALL = _FROM_FILE + _FF_TAIL
+_FF_RAISE = "\n        raise ValueError(\"No valid Beacon configuration found\")\n"
+_FF_FLAT = (
+    "        bconfig = cls(grconfig.unmasked_beacon_config)\n        bconfig.guardrails = grconfig\n"
+    "        bconfig.xorkey = grconfig.beacon_xor_key\n"
+    "        bconfig.pe_compile_stamp, bconfig.pe_export_stamp = pe.find_compile_stamps(fxor)\n"
+    "        bconfig.architecture = pe.find_architecture(fxor)\n        return bconfig\n"
+)
+
+
+def _next_first(source, guard):
+    return [(B, _FF_ALL + _FF_RAISE, f"        grconfig = next({source}, None)\n        if {guard}:\n            raise ValueError(\"No valid Beacon configuration found\")\n" + _FF_FLAT)]
+
+
+# the search loop as "first element of the filtered iterator" (guard clause + straight-line tail), in several spellings
+T("C17", "twin-r2-next-filter-lambda", B, "", "", edits=_next_first("filter(lambda g: g.unmasked_beacon_config, iter_guardrail_configs_with_beacon(fxor))", "grconfig is None"))
+T("C17", "twin-r2-next-iter-listcomp-not", B, "", "", edits=_next_first("iter([g for g in iter_guardrail_configs_with_beacon(fxor) if g.unmasked_beacon_config is not None and g.unmasked_beacon_config])", "not grconfig"))
+M("C17", "r2-next-filter-other-field", B, "", "", "C17.R2", edits=_next_first("(g for g in iter_guardrail_configs_with_beacon(fxor) if g.masked_beacon_config)", "grconfig is None"))
+# only the first candidate of the (unfiltered) validating iterator is looked at: a metadata-only candidate ends the search
+M("C17", "r2-next-unfiltered-first-only", B, "", "", "C17.R2", edits=_next_first("iter_guardrail_configs_with_beacon(fxor)", "grconfig is None or not grconfig.unmasked_beacon_config"))
+M("C17", "r2-break-on-metadata-only", B, "            if not grconfig.unmasked_beacon_config:\n                continue\n            bconfig = cls(grconfig",
+  "            if not grconfig.unmasked_beacon_config:\n                break\n            bconfig = cls(grconfig", "C17.R2")
+# loop that only searches, construction behind it
+T("C17", "twin-r2-for-break-then-build", B, "", "", edits=[(B, _FF_ALL + _FF_RAISE,
+  "        for grconfig in iter_guardrail_configs_with_beacon(fxor):\n            if grconfig.unmasked_beacon_config:\n                break\n"
+  "        else:\n            raise ValueError(\"No valid Beacon configuration found\")\n" + _FF_FLAT)])
+# result variable of the search (the draw of the constructed candidate is then not located: DOM decided through the copy, rest undecided)
+T("C17", "twin-r2-search-result-variable", B, "", "", edits=[(B, _FF_ALL + _FF_RAISE,
+  "        found = None\n        for candidate in iter_guardrail_configs_with_beacon(fxor):\n            if candidate.unmasked_beacon_config:\n                found = candidate\n                break\n"
+  "        if found is None:\n            raise ValueError(\"No valid Beacon configuration found\")\n" + _FF_FLAT.replace("grconfig", "found"))])
+M("C17", "r2-search-result-variable-unchecked", B, "", "", "C17.R2", edits=[(B, _FF_ALL + _FF_RAISE,
+  "        found = None\n        for candidate in iter_guardrail_configs_with_beacon(fxor):\n            if candidate.masked_beacon_config:\n                found = candidate\n                break\n"
+  "        if found is None:\n            raise ValueError(\"No valid Beacon configuration found\")\n" + _FF_FLAT.replace("grconfig", "found"))])
+
+# ================================================================================================ R3: nothing keeps the settings loop from the checksum setting
+_WT = "            while True:\n                if fh_guard.peek(2)[:2] == b\"\\x00\\x00\":\n"
+_APPEND = "                settings.append(setting)\n"
+M("C17", "r3-settings-loop-range-of-marker-table", G, _WT, "            for _ in range(len(GUARD_CONFIG_STARTS)):\n                if fh_guard.peek(2)[:2] == b\"\\x00\\x00\":\n", "C17.R3")
+M("C17", "r3-settings-break-at-four", G, _APPEND, _APPEND + "                if len(settings) >= 4:\n                    break\n", "C17.R3")
+M("C17", "r3-settings-counter-not-equal", G, "", "", "C17.R3", edits=[
+    (G, "            checksum = 0\n            settings: list[GuardrailSetting] = []\n" + _WT,
+     "            checksum = 0\n            parsed = 0\n            settings: list[GuardrailSetting] = []\n            while parsed != len(GUARD_CONFIG_STARTS):\n                if fh_guard.peek(2)[:2] == b\"\\x00\\x00\":\n"),
+    (G, _APPEND, _APPEND + "                parsed += 1\n")])
+# property-preserving bounds: one setting per GuardOption member (5) / generous
+T("C17", "twin-r3-settings-bound-per-option", G, _WT, "            while len(settings) <= len(GUARD_CONFIG_STARTS):\n                if fh_guard.peek(2)[:2] == b\"\\x00\\x00\":\n")
+T("C17", "twin-r3-settings-for-range-generous", G, _WT, "            for _ in range(GUARD_PATCH_SIZE // 6):\n                if fh_guard.peek(2)[:2] == b\"\\x00\\x00\":\n")
+# a bound the rule cannot read (not a constant): undecided
+T("C17", "twin-r3-settings-bound-opaque", G, _WT, "            while len(settings) < len(unmasked_guard_config):\n                if fh_guard.peek(2)[:2] == b\"\\x00\\x00\":\n")
